@@ -36,8 +36,9 @@ import WcModel.Proofs.Regex
 
   i.e. `q.match(p, REALPATH)` is true exactly when `Path('.').rglob(p)` yields `q` — an instance
   of C04 (`globmatch(REALPATH)` = `glob`) under `_EXTMATCHBASE`.  It is *false* on the pinned
-  tree (D6, and D7/D8 inherited from C04; KF-PARTPREFIX / KF-NEWLINE on the `match()` side —
-  their walker halves are repaired, see `Properties/C16walk.lean`); the D6 witness below is proved on the parser model
+  tree (D6, and D8 inherited from C04; KF-PARTPREFIX / KF-NEWLINE on the `match()` side —
+  their walker halves are repaired, see `Properties/C16walk.lean`; D7, G3 and RGLOBSTAR, which showed here too,
+  are repaired: `C16views.RGLOBSTAR_D7_G3_fixed_witness`); the D6 witness below is proved on the parser model
   and replayed on the real code by `harness/checks/C16.py`, which also compares
   `match(REALPATH)` with `rglob` membership for every entry of every generated tree.
 -/
